@@ -570,21 +570,15 @@ Proof.
   unfold holding. cbn [fold_left]. destruct f; try discriminate. cbn [eff_hold]. apply IH. exact Hq.
 Qed.
 
-Lemma sync_walk_replies : forall cache xs nm fwd q nm' fwd' q',
-  sync_walk cache nm xs fwd q = Some (nm', fwd', q') -> forallb is_reply q = true -> forallb is_reply q' = true.
+Lemma sync_walk_replies : forall cache xs fwd q fwd' q',
+  sync_walk cache xs fwd q = (fwd', q') -> forallb is_reply q = true -> forallb is_reply q' = true.
 Proof.
-  induction xs as [|x xs IH]; intros nm fwd q nm' fwd' q' H Hq; cbn [sync_walk] in H.
-  - injection H as <- <- <-. exact Hq.
-  - destruct x as [| [n|] | [n|] | | k n].
+  induction xs as [|x xs IH]; intros fwd q fwd' q' H Hq; cbn [sync_walk] in H.
+  - injection H as <- <-. exact Hq.
+  - destruct x as [| m | m | | k n]; try (eapply IH; eassumption).
+    destruct (cache && (k =? 83)%N && negb match n with [] => true | _ :: _ => false end)%bool.
+    + eapply IH; [eassumption|]. rewrite forallb_app. rewrite Hq. reflexivity.
     + eapply IH; eassumption.
-    + destruct (mem_bytes n nm); [eapply IH; eassumption|discriminate].
-    + eapply IH; eassumption.
-    + destruct (mem_bytes n nm); [eapply IH; eassumption|discriminate].
-    + eapply IH; eassumption.
-    + eapply IH; eassumption.
-    + destruct (cache && (k =? 83)%N && negb match n with [] => true | _ :: _ => false end)%bool.
-      * eapply IH; [eassumption|]. rewrite forallb_app. rewrite Hq. reflexivity.
-      * eapply IH; eassumption.
 Qed.
 
 Definition balanced (h0 : bool) (so : sout) : Prop :=
@@ -605,13 +599,13 @@ Proof.
   destruct copy;
   unfold txn_msg, forward, done_local, done_z, done_end; cbn [andb negb];
   repeat match goal with
-         | |- balanced _ (match sync_walk ?a ?b ?c ?d ?e with _ => _ end) => destruct (sync_walk a b c d e) as [[[? ?] ?]|] eqn:SW
+         | |- balanced _ (let '(_, _) := sync_walk ?a ?b ?c ?d in _) => destruct (sync_walk a b c d) as [? ?] eqn:SW
          | |- balanced _ (match ?x with _ => _ end) => destruct x eqn:?
          | |- balanced _ (if ?x then _ else _) => destruct x eqn:?
          | |- balanced _ (let '(_, _) := ?x in _) => destruct x eqn:?
          end;
     try (match goal with Hh : after_reply _ _ _ ?z = _ |- _ => destruct z; cbn [after_reply] in Hh; injection Hh as <- <- end);
-    try (pose proof (sync_walk_replies _ _ _ _ _ _ _ _ SW eq_refl) as HQ);
+    try (pose proof (sync_walk_replies _ _ _ _ _ _ SW eq_refl) as HQ);
     cbn [balanced holds]; rewrite ?holding_app; rewrite ?H; try rewrite (holding_replies _ _ HQ);
     try reflexivity; try (split; reflexivity).
 Qed.
